@@ -30,6 +30,17 @@ pub fn extract<'tcx>(tcx: TyCtxt<'tcx>) -> J {
         }
         bodies.push(cx.body(ldid));
     }
+    // initialisers of free / associated constants (MIR for const evaluation): lets the analysis re-evaluate a constant
+    // for other pointer widths than the host's
+    let mut const_bodies = Vec::new();
+    for ldid in tcx.hir_body_owners() {
+        let did = ldid.to_def_id();
+        if let DefKind::Const { .. } = tcx.def_kind(did) {
+            if tcx.generics_of(did).count() == 0 {
+                const_bodies.push(cx.body(ldid));
+            }
+        }
+    }
     let mut adts = Vec::new();
     let mut impls = Vec::new();
     let mut consts = Vec::new();
@@ -65,6 +76,7 @@ pub fn extract<'tcx>(tcx: TyCtxt<'tcx>) -> J {
         .put("debug_assertions", sess.opts.debug_assertions)
         .put("cfg", J::Arr(cfgs.into_iter().map(J::s).collect()))
         .put("bodies", J::Arr(bodies))
+        .put("const_bodies", J::Arr(const_bodies))
         .put("adts", J::Arr(adts))
         .put("impls", J::Arr(impls))
         .put("consts", J::Arr(consts))
@@ -265,7 +277,7 @@ impl<'tcx> Cx<'tcx> {
         let did = ldid.to_def_id();
         let kind = tcx.def_kind(did);
         let key = self.stable_path(did);
-        let body: &'tcx Body<'tcx> = tcx.optimized_mir(did);
+        let body: &'tcx Body<'tcx> = if matches!(kind, DefKind::Const { .. }) { tcx.mir_for_ctfe(did) } else { tcx.optimized_mir(did) };
         self.cur_body = Some(body);
         let tenv = TypingEnv::post_analysis(tcx, did);
         let mut o = J::obj().put("key", key);
